@@ -208,7 +208,25 @@ def run(ctx):
         entries = [reqgen.entry_of(k, rng) for k in kinds]
         one(ctx, fxs[cfg], cfg, json.dumps(entries if len(entries) > 1 else entries[0]), "batch")
     # 4. translator-rejected payloads: -32700, nothing runs (judged here directly; C08 goes deeper)
-    for body in reqgen.jsonclass_bodies(rng):
+    # other Configs of the same process (a client's, the shared DEFAULT) know local classes this server does not
+    import jsonrpclib.config as cm
+    other = cm.Config()
+    other.classes.add(dict, "Klass")
+    other.classes.add(list, "Point")
+    cm.DEFAULT.classes.add(dict, "Klass")
+    try:
+        extra_bodies = [json.dumps({"jsonrpc": "2.0", "id": 1, "method": "echo", "params": [{"__jsonclass__": [n, []]}]})
+                        for n in ("Klass", "Point", "dict")]
+        _translator_part(ctx, rng, cfgs, fxs, list(reqgen.jsonclass_bodies(rng)) + extra_bodies)
+    finally:
+        cm.DEFAULT.classes.pop("Klass", None)
+    # 5. client side
+    for v in (2.0, 1.0):
+        client_side(ctx, rng, v)
+
+
+def _translator_part(ctx, rng, cfgs, fxs, bodies):
+    for body in bodies:
         for cfg in cfgs:
             fx = fxs[cfg]
             obs = dm.drive(fx, body)
@@ -229,15 +247,29 @@ def run(ctx):
             if obs.invocations:
                 ctx.violate("invocations:translator-reject-ran-something", case,
                             {"ran": dm.inv_repr(obs.invocations)})
-    # 5. client side
-    for v in (2.0, 1.0):
-        client_side(ctx, rng, v)
 
 
-def translator_rejects(body, config):
-    """Does the real class translator reject this payload? (run on a private copy of the parsed body;
-    whether it SHOULD reject is C08's question, what the server does with a rejection is C05's)"""
+def _bare_names(value, acc):
+    if isinstance(value, dict):
+        d = value.get("__jsonclass__")
+        if isinstance(d, list) and d and isinstance(d[0], str) and d[0] and "." not in d[0]:
+            acc.append(d[0])
+        for v in value.values():
+            _bare_names(v, acc)
+    elif isinstance(value, list):
+        for v in value:
+            _bare_names(v, acc)
+    return acc
+
+
+def translator_rejects(body, config, registered=()):
+    """Does the class translator reject this payload?  A descriptor with a bare (module-less) class name that the
+    harness never registered on THIS Config must be rejected, whatever other Configs of the process know (an
+    independent expectation); for the rest the real translator is asked on a private copy of the parsed body
+    (whether a name SHOULD be rejected is C08's question, what the server does with a rejection is C05's)."""
     import jsonrpclib.jsonclass as jc
+    if any(n not in registered for n in _bare_names(json.loads(body), [])):
+        return True
     try:
         jc.load(json.loads(body), config.classes)
     except Exception:
